@@ -170,7 +170,9 @@ class Symbolizer:
     def resolve(self, addrs):
         need = [a for a in addrs if a not in self.cache]
         if need:
-            p = subprocess.run(["addr2line", "-f", "-e", self.exe] + ["0x" + a for a in need], stdout=subprocess.PIPE, stderr=subprocess.DEVNULL)
+            # the addresses are return addresses: look one byte back to land inside the call's own line
+            p = subprocess.run(["addr2line", "-f", "-e", self.exe] + ["0x%x" % max(0, int(a, 16) - 1) for a in need],
+                               stdout=subprocess.PIPE, stderr=subprocess.DEVNULL)
             lines = p.stdout.decode("latin-1").split("\n")
             for i, a in enumerate(need):
                 fn = lines[2 * i] if 2 * i < len(lines) else "??"
@@ -429,6 +431,8 @@ def lsan_key(text):
 # ---------------------------------------------------------------------------------------------
 def run(ctx):
     t0 = time.time()
+    for old in glob.glob(os.path.join(ctx.outdir, "replay_*.json")):
+        os.unlink(old)
     ctx.proofs()
     ctx.coverage["partial"] = PARTIAL_TEXT
     drv = c05.build_driver("memdrive", ["mem/memdrive.c"], "plain", extra=WRAP)
